@@ -259,8 +259,44 @@ func (p *Prog) Fn(name string) *ssa.Function {
 	if f, ok := p.Funcs[name]; ok {
 		return f
 	}
+	if a := p.aka(name); a != name {
+		if f, ok := p.Funcs[a]; ok {
+			return f
+		}
+	}
 	p.unresolved = append(p.unresolved, "func "+name)
 	return nil
+}
+
+// spawnAnchors: pinned functions whose whole purpose is to start one
+// goroutine. When such a function no longer exists (inlined into its caller)
+// the rules written for it are evaluated on the function that now holds the
+// go statement, provided that is unique.
+var spawnAnchors = map[string]string{"fsm.startReading": "fsm.read"}
+
+// aka maps a pinned function name to the function the rules about it are
+// evaluated on in the current tree.
+func (p *Prog) aka(name string) string {
+	target, ok := spawnAnchors[name]
+	if !ok {
+		return name
+	}
+	if _, ok := p.Funcs[name]; ok {
+		return name
+	}
+	host := ""
+	for _, s := range p.spawns() {
+		if s.Target != nil && p.Name(s.Target) == target {
+			if host != "" {
+				return name
+			}
+			host = p.ownerName(s.In)
+		}
+	}
+	if host == "" {
+		return name
+	}
+	return host
 }
 
 // constGlobals finds the package-level variables that hold a constant table:
